@@ -243,21 +243,24 @@ def r08d(ctx):
     fa = ctx.facts
     b = ctx.anchor("R08d", DB + "graph_index")
     if b:
-        ok = False
-        detail = ("graph_index no longer dispatches on the sign of the id (`id.cmp(&0)` match not found): a negative id must "
-                  "resolve only through graph.edge and a positive one only through graph.node, because the validators look "
-                  "at the slot |id| alone")
-        for m in fa.matches(b.path):
-            if "Ordering" not in m["scrut_ty"]:
-                continue
-            tbl = {}
-            for a in m["arms"]:
-                v = (a["p"].get("path") or "_").split("::")[-1]
-                calls = {common.norm(c).split("::")[-1] for c in a["body"]["calls"] if common.norm(c).startswith(G)}
-                tbl[v] = calls
-            ok = tbl.get("Less") == {"edge"} and tbl.get("Greater") == {"node"} and not tbl.get("Equal")
-            detail = "Less -> graph.edge, Greater -> graph.node, Equal -> not found" if ok else \
-                "sign discipline broken in graph_index: %s" % {k: sorted(v) for k, v in tbl.items()}
+        # whatever the idiom (match on id.cmp(&0), if / else if on id < 0 / id > 0): graph.edge is consulted only for a
+        # negative id, graph.node only for a positive one, and Ok is returned only after one of them said `is_some`
+        se = common.sign_edges(b, 2)
+        ec = [(i, t) for i, t in cfg.calls(b) if common.norm(cfg.callee(t) or "") == G + "edge"]
+        nc = [(i, t) for i, t in cfg.calls(b) if common.norm(cfg.callee(t) or "") == G + "node"]
+        okb, errb, unk = cfg.ret_class_blocks(b)
+        exists_edges = []
+        for i, t in ec + nc:
+            for te in cfg.result_edges(b, [t["d"][0]]):
+                exists_edges.append(te["ok_edge"])
+        ok_e = bool(ec and se["neg"]) and all(cfg.find_path(b, [0], [i], removed_edges=se["neg"]) is None for i, t in ec)
+        ok_n = bool(nc and se["pos"]) and all(cfg.find_path(b, [0], [i], removed_edges=se["pos"]) is None for i, t in nc)
+        ok_x = bool(exists_edges and okb) and cfg.find_path(b, [0], okb + unk, removed_edges=exists_edges) is None
+        ok = ok_e and ok_n and ok_x
+        detail = ("graph.edge only for id < 0, graph.node only for id > 0, Ok only after one of them found the element" if ok else
+                  "sign discipline broken in graph_index (graph.edge only under id < 0: %s; graph.node only under id > 0: %s; "
+                  "Ok only after an existence test: %s): a negative id must resolve only through graph.edge and a positive "
+                  "one only through graph.node, because the validators look at the slot |id| alone" % (ok_e, ok_n, ok_x))
         ctx.ob("R08d", "graph_index:sign-table", ok, detail, b.where)
     for fn, want_neg in (("insert_edge", True), ("insert_node", False)):
         b = ctx.anchor("R08d", G + fn)
